@@ -1549,7 +1549,8 @@ class BaseSpaceImpl(*_base_space_impl_base):
 
     def on_delete(self):
         for cells in self.cells.values():
-            cells.clear_all_values(clear_input=True)
+            # clear_obj also clears values calculated through uncached cells
+            self.model.clear_obj(cells)
             cells.on_delete()
         self.clear_refs_referrers()
         super().on_delete()
